@@ -308,7 +308,7 @@ def lazy_harvester_stream(c, tmp, n):
         shutil.rmtree(d, ignore_errors=True)
 
 
-def derived_stream(c, tmp, n):
+def derived_stream(c, tmp, n, pairs, metas):
     """A dataset DERIVED from a loaded one (extended along a coordinate, so that cells nobody filled are missing)
     is a dataset like any other: saved and loaded again it has the same values -- whatever on-disk details xarray
     remembers from the earlier load."""
@@ -342,9 +342,16 @@ def derived_stream(c, tmp, n):
             want = {k: derived[k].values.tolist() for k in derived.data_vars}
             xyzpy.save_ds(derived, os.path.join(d, "second"), engine=engine)
             back = xyzpy.load_ds(os.path.join(d, "second"), engine=engine)
+            KIND = {"i": "KInt", "u": "KUInt", "f": "KFloat", "c": "KComplex", "b": "KBool", "U": "KStr"}
             for k in derived.data_vars:
                 if not same_values(derived[k].values, back[k].values):
                     bad = f"{k}: {want[k]} came back as {back[k].values.tolist()}"
+                # the kind the variable was written with, against the regenerated rule of save_ds
+                rem = loaded[k].encoding.get("dtype") if k in loaded else None
+                rem = "None" if rem is None else f"(Some {KIND[np.dtype(rem).kind]})"
+                pairs.append((f"enc_dkind (written_kind gen_dtype_rule {ENG[engine]} {rem} {KIND[derived[k].dtype.kind]} false)",
+                              back[k].dtype.kind))
+                metas.append({**rep, "variable": k})
         except Exception as e:  # noqa
             err = f"{type(e).__name__}: {str(e)[:160]}"
         c.case(json.dumps(rep, sort_keys=True), nontrivial=True, sample=rep if i % 8 == 0 else None)
@@ -390,7 +397,7 @@ def run(tier, seed):
                 metas.append(rep)
         sync_conflict_stream(c, tmp, 12 if tier == "quick" and not c.broken else 80)
         lazy_harvester_stream(c, tmp, 12 if tier == "quick" and not c.broken else 80)
-        derived_stream(c, tmp, 16 if tier == "quick" and not c.broken else 120)
+        derived_stream(c, tmp, 16 if tier == "quick" and not c.broken else 120, pairs, metas)
         bad, _ = core.safe_run_cases(c, "Prelude Names GenNames", pairs, preamble=PREAMBLE)
         for i in bad:
             c.obligation_broken("correspondence Model/Names.v (regenerated) vs manage.py",
